@@ -128,6 +128,15 @@ def getTheta (h : Holder) (i : Int) : Except Err Sample :=
     | some t => .ok t
     | none => .error .indexError
 
+/-- REGRESSION definition (seeded change S7-C10, not the code): `get_theta` with Python list
+indexing -- only `step_index < -len` is refused on the negative side, `-len .. -1` are served from
+the end -/
+def getThetaOld (h : Holder) (i : Int) : Except Err Sample :=
+  if i > (h.thetas.length : Int) - 1 ∨ i < -(h.thetas.length : Int) then .error .valueError
+  else match h.thetas[(if i < 0 then i + h.thetas.length else i).toNat]? with
+    | some t => .ok t
+    | none => .error .indexError
+
 /-- `combine` (both operands are plain `ThetaHolder`s) -/
 def combine (a b : Holder) : Holder := ⟨a.size + b.size, a.thetas ++ b.thetas⟩
 
@@ -207,6 +216,17 @@ def intKey {α : Type} (e : String × α) : Except Err (Nat × α) :=
 def sortByInt {α : Type} (l : List (String × α)) : Except Err (List α) := do
   let keyed ← l.mapM intKey
   .ok ((keyed.mergeSort (fun a b => decide (a.1 ≤ b.1))).map (·.2))
+
+/-- REGRESSION definition (seeded change S5-C10, not the code): `sorted(list(keys))` -- the group
+names ordered as STRINGS (character by character), which is also the order in which HDF5 lists them -/
+def strLe (a b : String) : Bool := !(List.lt b.toList a.toList)
+
+def insertStr {α : Type} (e : String × α) : List (String × α) → List (String × α)
+  | [] => [e]
+  | x :: xs => if strLe e.1 x.1 then e :: x :: xs else x :: insertStr e xs
+
+def sortByStringOld {α : Type} (l : List (String × α)) : List α :=
+  (l.foldr insertStr []).map (·.2)
 
 /-- the dict `load_h5` rebuilds for one group: attributes first, then datasets -/
 def Group.dict (g : Group) : Dict := g.attrs ++ g.dsets
